@@ -46,5 +46,54 @@ func TestVerifEchoMiddleware(t *testing.T) {
 			e.ServeHTTP(w, httptest.NewRequest("GET", "/ping/7", nil))
 			return vOut{Status: w.Code, Body: w.Body.String(), Panicked: panicked, PanicVal: pv}
 		},
+		Instance: func(ext, fb bool) func(func() error) vOut {
+			var opts []Option
+			if ext {
+				opts = append(opts, WithResourceExtractor(func(echo.Context) string { return "custom-echo" }))
+			}
+			if fb {
+				opts = append(opts, WithBlockFallback(func(c echo.Context) error { return c.String(http.StatusBadRequest, "fallback") }))
+			}
+			hs := &vHandlers{}
+			type flags struct {
+				panicked bool
+				pv       interface{}
+			}
+			var cur []*flags
+			e := echo.New()
+			e.HideBanner = true
+			e.Use(func(next echo.HandlerFunc) echo.HandlerFunc {
+				return func(c echo.Context) (err error) {
+					f := cur[len(cur)-1]
+					defer func() {
+						if v := recover(); v != nil {
+							f.panicked, f.pv = true, v
+							if !c.Response().Committed {
+								err = c.String(http.StatusInternalServerError, "panic")
+							}
+						}
+					}()
+					return next(c)
+				}
+			})
+			e.Use(SentinelMiddleware(opts...)) // ONE middleware value for all requests of the combination
+			e.GET("/ping/:id", func(c echo.Context) error {
+				if err := hs.call(); err != nil {
+					return c.String(http.StatusBadGateway, "err")
+				}
+				return c.String(http.StatusOK, "pong")
+			})
+			return func(h func() error) (out vOut) {
+				f := &flags{}
+				cur = append(cur, f)
+				defer func() { cur = cur[:len(cur)-1] }()
+				hs.with(h, func() {
+					w := httptest.NewRecorder()
+					e.ServeHTTP(w, httptest.NewRequest("GET", "/ping/7", nil))
+					out = vOut{Status: w.Code, Body: w.Body.String(), Panicked: f.panicked, PanicVal: f.pv}
+				})
+				return out
+			}
+		},
 		Rejected: vHTTPRejected})
 }
